@@ -33,6 +33,13 @@ CLAIMED = {
         "Trusts the float64 recursion oracle (start-up self-test vs mpmath definition, Cartesian closed forms, addition theorem to l=330) and treats 1e-10*sqrt(4pi) as data rounding noise.",
         "DESIGN.md 3/C02",
     ),
+    "C19": (
+        "model_checking",
+        "explicit-state breadth-first exploration of API-call histories on the real library objects (angular caches / inferred transform scale / Coulomb table), canonical state keys, fresh world per history, invariant + differential oracle after every transition, determinism validated by double and fresh-interpreter replays",
+        "Every call history over the stated alphabet up to the depth bound is executed on the implementation itself (quick: depth 3 for the main angular-cache world, about 1.2e3 canonical states / 5e3 transitions; thorough: depth 5); after each transition every (method, degree) of the alphabet is probed against the shipped data and every object is compared with a fresh world. This is a coverage statement within the bound, not a sample.",
+        "Trusts the reset of the module caches (validated against a spawned interpreter), the canonical keys (soundness argument in vf/props/c19.py), np.load of the data files. Alphabet: 2 methods x 2 degrees per run (all four methods over the runs), edits are '*= 2' in place.",
+        "DESIGN.md 3/C19",
+    ),
 }
 
 NOT_YET = "check not built yet in this session (work in progress; see DESIGN.md section 8 for the order of work)"
